@@ -1,6 +1,7 @@
 import Mp.ProofsFn
 import Mp.ProofsArr
-/-! C17 — array functions return the right element, count and aggregate: property theorems. -/
+import Mp.AnyOfProofs
+/-! C17 — property theorems (proved in the imported modules; statements are checked there, axioms audited here). -/
 #print axioms Mp.count_spec
 #print axioms Mp.asArray_spec
 #print axioms Mp.first_spec
@@ -14,3 +15,5 @@ import Mp.ProofsArr
 #print axioms Mp.first_eq_index0
 #print axioms Mp.last_eq_index
 #print axioms Mp.any_spec
+#print axioms Mp.anyOf_dec_iff
+#print axioms Mp.anyOf_str_iff
